@@ -14,13 +14,17 @@
    single-chunk files. The proof is a simulation between the two-pass interpreter (mem_build) and the streaming one
    (db_build), Proofs/TreeAgree.v.
    C05_stores_agree_implicit widens this to TOCs with implicit parent directories, C05_stores_agree_rooted adds an explicit
-   root entry (Proofs/TreeAgree2.v).
+   root entry (Proofs/TreeAgree2.v), C05_stores_agree_hardlinks adds backward hardlinks incl. chains (Proofs/TreeAgree3.v).
    LEFT OPEN (checked on every run by the correspondence check and the store-vs-store oracle only): tree equality for
-   conforming TOCs with repeated directory entries, hardlinks
-   (backward, chains) and multi-chunk files inside the tree walk (their chunk tables are covered per file by
-   C05_chunk_tables_agree / C05_chunk_lookup_agree). *)
+   conforming TOCs with repeated directory entries, and the tree walk over TOCs containing chunk entries. For the latter
+   the chunk part is done: C05_chunk_slice_memory / C05_chunk_slice_db / C05_chunk_lookup_agree_in_toc show for ANY TOC that
+   the tables the interpreters build for a tiling multi-chunk file are the per-file slices and agree at every offset; what
+   is missing is threading chunk entries (which shift the entry indices but create no nodes) through the tree simulation
+   of Proofs/TreeAgree3.v and identifying the db node id of each reg entry with the node the walk reaches. *)
 From Coq Require Import List ZArith Bool Lia.
 From SV Require Import Model.TreeStores Proofs.TreeStores Proofs.TreeAgree Proofs.TreeAgree2.
+From SV Require Proofs.TreeAgree3.
+From SV Require Import Proofs.ChunkSlices.
 Import ListNotations.
 Open Scope Z_scope.
 
@@ -58,6 +62,52 @@ Theorem C05_chunk_lookup_agree : forall r cs off, file_conforming r cs -> 0 <= o
   file_mem_lookup r cs off = file_db_lookup r cs off.
 Proof. exact chunk_lookup_agree. Qed.
 Print Assumptions C05_chunk_lookup_agree.
+
+(* The per-file slices the chunk theorems speak about ARE what the two interpreters compute for a file anywhere inside an
+   arbitrary TOC (any tree shape, hardlinks, repeated directories ... around it): for TOC = pre ++ r :: cs ++ post with r a
+   reg entry, cs its chunk entries, the next entry not a chunk and no other non-chunk entry of the same cleaned name,
+   the memory store's r.chunks[name] after the first pass of initFields is file_mem_ents r cs ... *)
+Theorem C05_chunk_slice_memory : forall pre r cs post,
+  e_type r = TReg -> clean (e_name r) <> [] ->
+  Forall (fun c => is_chunk c = true) cs ->
+  match post with e :: _ => is_chunk e = false | [] => True end ->
+  Forall (fun e => is_chunk e = false -> clean (e_name e) <> clean (e_name r)) (pre ++ post) ->
+  chunks_of (clean (e_name r)) (p1_chunks (pass1 (pre ++ r :: cs ++ post))) = file_mem_ents r cs.
+Proof. exact slice_mem. Qed.
+Print Assumptions C05_chunk_slice_memory.
+
+(* ... and, whenever the db store accepts the TOC and every later chunk entry follows a reg entry, the chunk list stored
+   for the node created for r (node id = number of nodes before r was processed) is file_db_stored r cs. *)
+Theorem C05_chunk_slice_db : forall pre r cs post s0 sF,
+  fold_left db_step pre (Some d_init) = Some s0 ->
+  e_type r = TReg -> Forall (fun c => is_chunk c = true) cs -> chunks_follow_regs false post = true ->
+  fold_left db_step (r :: cs ++ post) (Some s0) = Some sF ->
+  chunks_at sF (dlen s0) = file_db_stored r cs.
+Proof. exact slice_db. Qed.
+Print Assumptions C05_chunk_slice_db.
+
+(* Hence, for a multi-chunk file that tiles, anywhere in any TOC both stores accept: ChunkEntryForOffset computed from the
+   table the memory interpreter built and from the chunk list the db interpreter stored agree at every offset. *)
+Theorem C05_chunk_lookup_agree_in_toc : forall pre r cs post s0 sF off,
+  file_conforming r cs -> clean (e_name r) <> [] ->
+  Forall (fun c => is_chunk c = true) cs ->
+  match post with e :: _ => is_chunk e = false | [] => True end ->
+  Forall (fun e => is_chunk e = false -> clean (e_name e) <> clean (e_name r)) (pre ++ post) ->
+  chunks_follow_regs false post = true ->
+  fold_left db_step pre (Some d_init) = Some s0 ->
+  fold_left db_step (r :: cs ++ post) (Some s0) = Some sF -> 0 <= off ->
+  (let ents := chunks_of (clean (e_name r)) (p1_chunks (pass1 (pre ++ r :: cs ++ post))) in
+   if Nat.ltb (length ents) 2
+   then (let c := mem_chunk r None in if off >=? c_size c then None else Some (c_choff c, c_size c, c_dg c))
+   else chunk_search ents off)
+  = chunk_search (read_chunks (chunks_at sF (dlen s0)) (e_size r)) off.
+Proof.
+  intros pre r cs post s0 sF off Hc Hne Hcs Hp Hn Hf H0 HF Hoff.
+  rewrite (slice_mem pre r cs post (fc_reg _ _ Hc) Hne Hcs Hp Hn).
+  rewrite (slice_db pre r cs post s0 sF H0 (fc_reg _ _ Hc) Hcs Hf HF).
+  exact (chunk_lookup_agree r cs off Hc Hoff).
+Qed.
+Print Assumptions C05_chunk_lookup_agree_in_toc.
 
 (* TOC digest (after the repair of parseTOCEStargz): whatever prefix the JSON decoder happened to read ahead, the memory
    store's digest is the hash of the whole TOC stream, i.e. the db store's. *)
@@ -110,6 +160,21 @@ Theorem C05_stores_agree_rooted : forall toc probes,
   view_mem toc probes = view_db toc probes /\ view_mem toc probes <> None.
 Proof. intros toc probes H Hp. exact (stores_agree_tree toc probes (rooted_tocb_ok toc H) Hp). Qed.
 Print Assumptions C05_stores_agree_rooted.
+
+(* ... and with BACKWARD HARDLINKS (Model.hardlink_tocb): entries may additionally be hardlinks whose cleaned target is the
+   name of an EARLIER entry that is not a directory; the target may itself be a hardlink (chains of any length), may live
+   in another directory, and a file may have any number of names. Both stores then show the same node under every name:
+   same attributes, link count (one more per name), chunk answers and the same node identity (v_ino) for all its paths.
+   Class conditions besides those of rooted_tocb: whatever has entries below it is a directory.
+   Proof (Proofs/TreeAgree3.v): the relation carries the map from processed hardlink entries to the node their name
+   resolves to; the db store's path lookup corresponds to the memory store's name map followed by link resolution, paths are
+   unique only for directories, hardlink entries leave unmapped unreachable nodes in the memory store (the two walks run on
+   the same fuel walk_fuel, so the different node counts do not matter). *)
+Theorem C05_stores_agree_hardlinks : forall toc probes,
+  hardlink_tocb toc = true -> Forall (fun p => 0 <= p) probes ->
+  view_mem toc probes = view_db toc probes /\ view_mem toc probes <> None.
+Proof. intros toc probes H Hp. exact (TreeAgree3.stores_agree_hl toc probes (TreeAgree3.hardlink_tocb_ok toc H) Hp). Qed.
+Print Assumptions C05_stores_agree_hardlinks.
 
 (* Layers in one database: whatever is opened, closed or queried on OTHER layers (any history, any candidate ids the
    id generator produces), a live layer shows exactly the same filesystem afterwards. *)
@@ -227,6 +292,32 @@ Example C05_rooted_toc_nonvacuous :
   rooted_tocb [r; f1; f2] = true /\ implicit_tocb [r; f1; f2] = false
   /\ (exists v, view_mem [r; f1; f2] [0] = Some v /\ length v = 5%nat /\ option_map a_uid (root_attr_of (Some v)) = Some 7).
 Proof. split; [vm_compute; reflexivity|]. split; [vm_compute; reflexivity|]. eexists. split; [vm_compute; reflexivity|split; reflexivity]. Qed.
+
+(* hardlink_tocb holds of a TOC with a root entry, a file below implicit directories, a hardlink to it in another
+   directory, a hardlink to that hardlink (respelled target) and a symlink; the file has link count 3 under each of its
+   three names and all three paths carry the same node identity *)
+Example C05_hardlink_toc_nonvacuous :
+  let r := E [1; 0] TDir 0 (Some 5) 0 [] 448 7 7 0 0 [] 0 0 0 0 0 0 in
+  let f1 := E [10; 11; 12] TReg 9 None 0 [] 420 0 0 0 0 [(3, 0)] 100 0 0 9 7 8 in
+  let h1 := hardlink [13; 14] [1; 10; 11; 12] in
+  let h2 := hardlink [15] [13; 2; 13; 14] in
+  let sl := E [10; 16] TSymlink 0 None 6 [] 511 0 0 0 0 [] 0 0 0 0 0 0 in
+  let toc := [r; f1; h1; h2; sl] in
+  hardlink_tocb toc = true /\ rooted_tocb toc = false /\
+  option_map (fun v => map (fun n => (v_path n, a_nlink (v_attr n), v_ino n)) (filter v_reg v)) (view_db toc [0])
+    = Some [([10; 11; 12], 3, 3%nat); ([13; 14], 3, 3%nat); ([15], 3, 3%nat)].
+Proof. split; [vm_compute; reflexivity|]. split; vm_compute; reflexivity. Qed.
+
+(* a two-chunk file below an implicit directory, followed by a hardlink to it and a directory: the slices of both
+   interpreters are the tiling table of the file *)
+Example C05_chunk_slice_nonvacuous :
+  let r := E [10; 11] TReg 7 None 0 [] 420 0 0 0 0 [] 100 0 0 4 9 8 in
+  let c := E [10; 11] TChunk 0 None 0 [] 0 0 0 0 0 [] 150 0 4 0 0 6 in
+  let pre := [ent [20] TDir] in
+  let post := [hardlink [21] [10; 11]; ent [22] TDir] in
+  chunks_of (clean (e_name r)) (p1_chunks (pass1 (pre ++ r :: [c] ++ post))) = file_table r [c]
+  /\ option_map (fun s => read_chunks (chunks_at s 2) 7) (db_build (pre ++ r :: [c] ++ post)) = Some (file_table r [c]).
+Proof. vm_compute. split; reflexivity. Qed.
 
 Example C05_bytes_nonvacuous :
   encode_int 300 = [216; 4] /\ encode_int (-1) = [1] /\ decode_int [216; 4] = Some 300 /\ clean [1; 10; 2; 0; 11; 12; 2] = [11].
